@@ -46,6 +46,7 @@ type vpC02Scn struct {
 	Proto10     bool // R1 is an HTTP/1.0 request with Connection: keep-alive
 	Method      string // R1's method: POST (default), or GET / HEAD / PUT carrying the same framed body
 	GetOnly     bool   // Server.GetOnly (only drawn together with GET / HEAD)
+	Trailer     string // chunked only: what stands between the last chunk's "0\r\n" and the blank line that ends the body ("" = nothing)
 	Tmo         bool   // R1's handler ends by answering through ctx.TimeoutErrorWithCode (the server continues on a fresh RequestCtx)
 }
 
@@ -57,8 +58,8 @@ func (s vpC02Scn) r1() string {
 }
 
 func (s vpC02Scn) String() string {
-	return fmt.Sprintf("stream=%v rmu=%v maxbody=%d chunked=%v pad=%d tail=%d chunks=%v handler=%s readn=%d expect=%q continueH=%q expectH=%q code=%d garbage=%q plan=%v r2body=%v http10=%v method=%s getonly=%v tmo=%v",
-		s.Stream, s.RMU, s.MaxBody, s.Chunked, s.Pad, s.Tail, s.ChunkAt, s.Handler, s.ReadN, s.Expect, s.ContinueH, s.ExpectH, s.ExpectCode, s.Garbage, s.Plan, s.R2Body, s.Proto10, s.r1(), s.GetOnly, s.Tmo)
+	return fmt.Sprintf("stream=%v rmu=%v maxbody=%d chunked=%v pad=%d tail=%d chunks=%v handler=%s readn=%d expect=%q continueH=%q expectH=%q code=%d garbage=%q plan=%v r2body=%v http10=%v method=%s getonly=%v tmo=%v trailer=%q",
+		s.Stream, s.RMU, s.MaxBody, s.Chunked, s.Pad, s.Tail, s.ChunkAt, s.Handler, s.ReadN, s.Expect, s.ContinueH, s.ExpectH, s.ExpectCode, s.Garbage, s.Plan, s.R2Body, s.Proto10, s.r1(), s.GetOnly, s.Tmo, s.Trailer)
 }
 
 type vpC02Result struct {
@@ -159,7 +160,7 @@ func vpC02Run(s vpC02Scn) vpC02Result {
 			cb.WriteString("\r\n")
 			rest = rest[n:]
 		}
-		cb.WriteString("0\r\n\r\n")
+		cb.WriteString("0\r\n" + s.Trailer + "\r\n")
 		wire = cb.Bytes()
 	} else {
 		fmt.Fprintf(&head, "Content-Length: %d\r\n", len(body))
@@ -244,7 +245,10 @@ func vpC02Oracle(s vpC02Scn, r vpC02Result) string {
 		return fmt.Sprintf("R2 was sent completely but never dispatched, and the server kept the connection open (state %s): it did not resume at the end of R1's framed body", r.State)
 	}
 	// body bytes handed to the R1 handler must be a prefix of the real body
-	if len(r.R1Read) > 0 && !bytes.HasPrefix(vpC02Body(s), r.R1Read) {
+	// (Request.Body() over a stream reports a read error in-band, as the error's text: with a malformed trailer
+	// section that text is what PostBody() yields, and it is no body byte)
+	inBandErr := s.Stream && s.Handler == "postbody" && s.Trailer != "" && bytes.HasPrefix(r.R1Read, []byte("error when reading"))
+	if len(r.R1Read) > 0 && !inBandErr && !bytes.HasPrefix(vpC02Body(s), r.R1Read) {
 		return fmt.Sprintf("R1 handler read %s which is not a prefix of the body sent", vpQuote(r.R1Read, 80))
 	}
 	// wire output: at most one final response per request sent
@@ -327,6 +331,21 @@ func vpC02Gen(t *rapid.T) vpC02Scn {
 			}
 		}
 	}
+	if s.Chunked && rapid.IntRange(0, 2).Draw(t, "usetrailer") == 0 {
+		// the trailer section belongs to R1's framed body: well-formed, or something a trailer section must not be
+		// (then the message is malformed and the connection may only be closed) - in particular a request
+		s.Trailer = rapid.SampledFrom([]string{
+			"X-Checksum: abc\r\n",
+			"X-A: 1\r\nX-B: 2\r\n",
+			strings.TrimSuffix(vpSmuggled, "\r\n"),
+			"GET /smuggled HTTP/1.1\r\n",
+			"Host: h\r\n",
+			"Content-Length: 5\r\n",
+			"X-T: a\x00b\r\n",
+			"no colon here\r\n",
+			"X-T: v\r\n" + strings.TrimSuffix(vpSmuggled, "\r\n"),
+		}).Draw(t, "trailer")
+	}
 	s.Handler = rapid.SampledFrom([]string{"ignore", "readn", "readn", "readall", "postbody"}).Draw(t, "handler")
 	if s.Handler == "readn" {
 		s.ReadN = rapid.SampledFrom([]int{0, 1, s.Pad, s.Pad - 1, s.Pad + 1, s.Pad + len(vpSmuggled), 8192, total - 1, total}).Draw(t, "readn")
@@ -402,6 +421,9 @@ func TestVP_C02_UnreadBodies(t *testing.T) {
 		unread := s.Handler == "ignore" || (s.Handler == "readn" && s.ReadN < total)
 		rejected := s.Expect != "" && (s.ContinueH == "reject" || s.ExpectH == "reject")
 		class := fmt.Sprintf("stream=%v/chunked=%v/", s.Stream, s.Chunked)
+		if s.Trailer != "" {
+			class += "trailer/"
+		}
 		if s.Proto10 {
 			class = "http10/" + class
 		}
